@@ -113,7 +113,7 @@ CLAIMED = {
              "det (|det| after the flip), first moments map through L, second moments follow det L . L S L^T, "
              "squared areas scale by s^4, translation changes volume only by cancelling edge terms. Tied to the "
              "code by a differential run over 7 geometry kinds x 8 float64-exact matrix classes with normals "
-             "cached or not (points, counts, connectivity, attached data, inverse, composition, mass properties).",
+             "cached or not (points, counts, connectivity, attached data, inverse, composition, mass properties). Executable rational copies of transformPoint / det / signed volume / first moments (Model/GeomRat.lean) are proved equal to the generic definitions by rfl (C04_rat_model_is_generic) and the driver runs them on the harness's meshes and matrices: transformed vertices, volume and centre of mass of apply_transform are compared with the model, and det * volume is re-checked exactly.",
         note="Trusted: Lean kernel (+propext/Classical.choice/Quot.sound), float64 evaluation on exact matrix "
              "families, C03's moments as the meaning of volume/centre/inertia. Partial: point clouds, paths, "
              "primitives, scenes and voxel grids are covered by the correspondence only ('points move to M.p, "
@@ -178,7 +178,7 @@ CLAIMED = {
              "volume, triangles, dump / to_mesh, convex hull containment against explicit placement read straight "
              "from node data, interleaved graph / geometry edits, delete + re-add, copy, scaled, rezero, "
              "apply_transform, +, append_scenes of >=3 scenes sharing node names, subscene, convert_units, and "
-             "source-unchanged checks.",
+             "source-unchanged checks. Executable rational copies of placed / lower / upper / nodeLower / nodeUpper (Model/GeomRat.lean) are proved equal to the generic definitions by rfl (C10_rat_model_is_generic) and the driver folds them over the final scene of every case (world transforms and geometry points as exact rationals): Scene.bounds must equal the model's bounds.",
         note="Trusted: Lean kernel (+propext/Classical.choice/Quot.sound), C09 for world transforms, float64 on the "
              "exact matrix family. Partial: the transformer methods are checked by correspondence only. Known "
              "findings: per-axis scaled() under rotated nodes; subscene drops the root node's own instance. One "
@@ -336,7 +336,7 @@ CLAIMED = {
              "maps, volume and binvox export/reload are checked against the dense specification by the "
              "correspondence only (partial).",
         note="Trusted: Lean kernel (+propext/Classical.choice/Quot.sound), the Python harness, numpy as the dense "
-             "specification. Not proved: the Encoding view classes (27 known findings list their broken reads by "
+             "specification. Not proved: the Encoding view classes (the known findings list their broken reads by "
              "(encoding, read, failure kind, view)), VoxelGrid transforms.",
         technique="Lean 4 proof over hand-written executable model + differential correspondence (line protocol)"),
     "C18": dict(
@@ -350,7 +350,7 @@ CLAIMED = {
              "a face negates its area vector and volume contribution. fix_normals / fix_winding / fix_inversion, "
              "fill_holes, subdivide_to_size and subdivide_loop are tied to these statements by the differential "
              "run (all / random re-winding subsets incl. whole bodies of unequal size, every single and double "
-             "face removal, edge bounds around the longest edge).",
+             "face removal, edge bounds around the longest edge). Executable rational copies of children / childFaces (Model/GeomRat.lean) are proved equal to the generic definitions by rfl (C18_rat_model_is_generic), subdivision of any triangle list keeps the signed volume (C18_rat_subdivide_volume), and the driver's children are compared triangle by triangle with Trimesh.subdivide.",
         note="Trusted: Lean kernel (+propext/Classical.choice/Quot.sound), float64 on dyadic inputs. Partial: the "
              "BFS winding repair and hole filling are checked by correspondence only (networkx traversal not "
              "modelled). Known finding: fill_holes on a tetrahedron missing two faces.",
